@@ -157,7 +157,7 @@ def ff_getters(repo, res, ty, rule="FF"):
         if ok:
             m = [A.resolve(x, envs.get(id(a1[0]))) for x in a1[0]["args"]]
             c = [A.resolve(x, envs.get(id(a2[0]))) for x in a2[0]["args"]]
-            ok = m[1] == c[4] and m[2] == c[1] and m[0] == c[0] and m[3] == c[2] and m[4] == c[3] and "get_all_literals" in A.show(m[1])
+            ok = m[1] == c[4] and m[2] == c[1] and m[0] == c[0] and m[3] == c[2] and m[4] == c[3] and ("get_all_literals" in A.show(m[1]) or "get_all_literals" in A.reach_calls(a1[0]["args"][1], envs.get(id(a1[0])), fn=fn, envs=envs))
         res.check(ok, rule, f"{rule}:tables::get_lookup_tables", "match and completion tables are built from the same automaton, the same literal-id map (from get_all_literals), the same command-id set and the same flags", fn.loc())
         sites = [s for s in P.ctor_sites(fn.body, "LookupTables") if s["k"] == "Struct"]
         if sites:
